@@ -5,14 +5,16 @@ name or None, op '=' | '?=', greedy bool).  Terminals are one-letter names decla
 """
 import random
 
-TERMS = {"a": "a", "b": "b", "c": "c", "comma": ","}
+TERMS = {"a": "a", "b": "b", "c": "c", "comma": ",", "+": "+", "-": "-", "~": "~"}
+# inline string terminals made of punctuation (the symbol's name is its text; helper rules are named "+_0", "-_opt", ...)
+INLINE = {"a": "+", "b": "-", "c": "~"}
 
 
 def item_text(it):
     if it.get("kind") == "grp":
         base = "(" + " | ".join(" ".join(item_text(i) for i in alt) if alt else "EMPTY" for alt in it["alts"]) + ")"
     else:
-        base = it["sym"]
+        base = ('"%s"' % it["sym"]) if it["sym"] in INLINE.values() else it["sym"]
     s = base + it["mult"]
     if it["mult"] and it.get("greedy"):
         s += "!"
@@ -27,10 +29,28 @@ def text(rules, used_terms=None):
     out = ""
     for name, alts in rules:
         out += "%s: %s;\n" % (name, " | ".join(" ".join(item_text(i) for i in alt) if alt else "EMPTY" for alt in alts))
-    terms = used_terms or sorted(_terms_of([a for _, alts in rules for a in alts]))
+    terms = [t for t in (used_terms or sorted(_terms_of([a for _, alts in rules for a in alts]))) if t not in INLINE.values()]
     if terms:
         out += "terminals\n" + "".join('%s: "%s";\n' % (t, TERMS[t]) for t in terms)
     return out
+
+
+def inline_variant(rules):
+    """the same rules with the terminals a, b, c written as inline punctuation strings "+", "-", "~" """
+    import copy
+
+    r = copy.deepcopy(rules)
+
+    def walk(alts):
+        for alt in alts:
+            for it in alt:
+                if it.get("kind") == "grp":
+                    walk(it["alts"])
+                elif it["sym"] in INLINE:
+                    it["sym"] = INLINE[it["sym"]]
+    for _, alts in r:
+        walk(alts)
+    return r
 
 
 def _terms_of(alts):
@@ -99,6 +119,40 @@ def add_groups(rules, rng, p_group=0.3):
     return out
 
 
+def strip_none_repetitions(rules):
+    """A repetition over a symbol or group whose result can be None (some alternative is just an optional item, or just a reference
+    to such a rule/group) is not generated: the built-in collect actions drop None elements after the first, which the documentation
+    does not describe either way (DESIGN 5 leniency).  In place; to be called again after groups were added."""
+    noneable = set()
+
+    def alts_noneable(alts):
+        return any(len(a) == 1 and (a[0]["mult"] == "?" or (a[0]["mult"] == "" and base_noneable(a[0]))) for a in alts)
+
+    def base_noneable(it):
+        if it.get("kind") == "grp":
+            return alts_noneable(it["alts"])
+        return it["sym"] in noneable
+
+    ch = True
+    while ch:
+        ch = False
+        for n, alts in rules:
+            if n not in noneable and alts_noneable(alts):
+                noneable.add(n)
+                ch = True
+
+    def walk(alts):
+        for a in alts:
+            for it in a:
+                if it.get("kind") == "grp":
+                    walk(it["alts"])
+                if it["mult"] in ("+", "*") and base_noneable(it):
+                    it["mult"], it["sep"] = "", None
+    for _, alts in rules:
+        walk(alts)
+    return rules
+
+
 def from_plain(g, rng, p_mult=0.35, p_name=0.0, p_sep=0.4):
     """decorate a plain family grammar (harness.gen) with sugar"""
     by = {}
@@ -117,21 +171,7 @@ def from_plain(g, rng, p_mult=0.35, p_name=0.0, p_sep=0.4):
             alt.append(it)
         by[lhs].append(alt)
     rules = [(n, by[n]) for n in order]
-    # A repetition over a symbol whose result can be None (a rule that is just an optional item) is not generated: the built-in
-    # collect actions drop None elements after the first, which the documentation does not describe either way (DESIGN 5 leniency).
-    noneable = set()
-    ch = True
-    while ch:
-        ch = False
-        for n, alts in rules:
-            if n not in noneable and any(len(a) == 1 and (a[0]["mult"] == "?" or (a[0]["mult"] == "" and a[0]["sym"] in noneable)) for a in alts):
-                noneable.add(n)
-                ch = True
-    for _, alts in rules:
-        for a in alts:
-            for it in a:
-                if it["mult"] in ("+", "*") and it["sym"] in noneable:
-                    it["mult"], it["sep"] = "", None
+    strip_none_repetitions(rules)
     if p_name:
         for name, alts in rules:
             if rng.random() < p_name:
